@@ -46,4 +46,5 @@ out={"property":sys.argv[3],"source":"independent sub-agent, given only the prop
 json.dump(out,open(sys.argv[2],"w"),indent=1)
 EOF
 fi
+[ $OK = yes ] || { grep -n "^FAIL\|^--- FAIL\|^panic" "$TMPDIR/suite.txt" | head -8; }
 cd /; git -C /repo worktree remove --force "$WT"; rm -rf "$TMPDIR"
